@@ -1,0 +1,18 @@
+// Copyright 2026 Juan Pablo Tosso and the OWASP Coraza contributors
+// SPDX-License-Identifier: Apache-2.0
+
+//go:build verif
+
+package seclang
+
+import "sort"
+
+// VerifDirectiveNames lists the registered directive names, lower-cased (verification tooling only).
+func VerifDirectiveNames() []string {
+	out := make([]string, 0, len(directivesMap))
+	for k := range directivesMap {
+		out = append(out, k)
+	}
+	sort.Strings(out)
+	return out
+}
